@@ -630,3 +630,17 @@ def shrink(c):
                     sh.apply(op)
                 if ok:
                     yield dict(c, ops=rest)
+
+
+# functions of /repo whose executed-line coverage by this run is reported in the evidence
+ANCHORS = [('swh/model/merkle.py', 'MerkleNode.*'),
+           ('swh/model/merkle.py', 'MerkleLeaf.*'),
+           ('swh/model/from_disk.py', 'Directory.invalidate_hash'),
+           ('swh/model/from_disk.py', 'Directory.entries'),
+           ('swh/model/from_disk.py', 'Directory.to_model'),
+           ('swh/model/from_disk.py', 'Directory.compute_hash'),
+           ('swh/model/from_disk.py', 'Directory.__getitem__'),
+           ('swh/model/from_disk.py', 'Directory.__setitem__'),
+           ('swh/model/from_disk.py', 'Directory.__delitem__'),
+           ('swh/model/from_disk.py', 'Directory.__contains__'),
+           ('swh/model/from_disk.py', 'Directory.child_to_directory_entry')]
